@@ -1401,3 +1401,210 @@ func dedupe(s []string) []string {
 
 var _ = token.NoPos
 var _ ssa.Value
+
+// ---------------------------------------------------------------- conformance sampling of assumed contracts
+
+// conformAssumed runs the real function behind an `assume func` contract on sampled inputs and evaluates the assumed
+// postconditions (compiled to Go like a replayed clause). It is a test of an assumption, never a proof: a passing run
+// is reported as "sampled", a failing one is a confirmed counterexample (real input, real run) against the contract
+// every caller's proof relies on.
+func conformAssumed(w *World, c *Contract) map[string]interface{} {
+	out := map[string]interface{}{"contract": unitName(c), "sampled": false}
+	defer func() {
+		if rec := recover(); rec != nil {
+			out["note"] = fmt.Sprintf("sampler failed: %v", rec)
+		}
+	}()
+	fn := c.Fn
+	if fn == nil || fn.Pkg == nil || fn.Parent() != nil || fn.TypeParams().Len() > 0 || !strings.HasPrefix(fn.Pkg.Pkg.Path(), w.module) {
+		out["note"] = "not sampled: not a plain function of the repository"
+		return out
+	}
+	g := &rgen{w: w, pkg: fn.Pkg.Pkg, imps: map[string]string{}, objs: map[string]string{}, arrs: map[string]*rarr{}, maps: map[string]string{}}
+	var fields, gens, args []string
+	params := map[string]bool{}
+	ok := true
+	var genFor func(lhs string, t types.Type, depth int) []string
+	genFor = func(lhs string, t types.Type, depth int) []string {
+		if isModelType(t) || depth > 3 {
+			return nil
+		}
+		switch u := t.Underlying().(type) {
+		case *types.Basic:
+			switch {
+			case u.Info()&types.IsInteger != 0:
+				return []string{fmt.Sprintf("%s = %s(replayGenInt(rnd))", lhs, g.typeExpr(t))}
+			case u.Info()&types.IsBoolean != 0:
+				return []string{fmt.Sprintf("%s = %s(rnd.Intn(2) == 0)", lhs, g.typeExpr(t))}
+			}
+			return nil
+		case *types.Slice:
+			if b, isB := u.Elem().Underlying().(*types.Basic); isB && b.Kind() == types.Uint8 {
+				return []string{fmt.Sprintf("%s = %s(replayGenBytes(rnd, n))", lhs, g.typeExpr(t))}
+			}
+			return nil
+		case *types.Struct:
+			var o []string
+			for i := 0; i < u.NumFields(); i++ {
+				f := u.Field(i)
+				if !f.Exported() && f.Pkg() != g.pkg {
+					continue
+				}
+				o = append(o, genFor(lhs+"."+f.Name(), f.Type(), depth+1)...)
+			}
+			return o
+		}
+		return nil
+	}
+	for i, p := range fn.Params {
+		name := p.Name()
+		if name == "" || name == "_" {
+			name = fmt.Sprintf("arg%d", i)
+		}
+		params[p.Name()] = true
+		te := g.typeExpr(p.Type())
+		fields = append(fields, fmt.Sprintf("\tp_%s %s\n", name, te))
+		switch p.Type().Underlying().(type) {
+		case *types.Pointer, *types.Interface, *types.Map, *types.Chan, *types.Signature:
+			ok = false
+		}
+		gens = append(gens, genFor("cur.p_"+name, p.Type(), 0)...)
+		args = append(args, "cur.p_"+name)
+	}
+	if !ok || g.fail != "" || fn.Signature.Recv() != nil {
+		out["note"] = "not sampled: parameters need objects or stubs (" + g.fail + ")"
+		return out
+	}
+	var rs []string
+	for i := 0; i < fn.Signature.Results().Len(); i++ {
+		rs = append(rs, fmt.Sprintf("r%d", i))
+	}
+	var checks, skipped, labels []string
+	for _, cl := range c.Ensures {
+		cg := &cgen{g: g, params: params, nres: len(rs), bound: map[string]bool{}, pkgScope: fn.Pkg.Pkg.Scope()}
+		e := cg.tr(cl.Expr)
+		if cg.fail != "" {
+			skipped = append(skipped, cl.Label+": "+cg.fail)
+			continue
+		}
+		labels = append(labels, cl.Label)
+		checks = append(checks, fmt.Sprintf("\t\t\tif !(%s) {\n\t\t\t\tfmt.Printf(\"GOVC-CONFORM fail label=%s input=%%#v\\n\", *cur)\n\t\t\t\tfails++\n\t\t\t}", e, cl.Label))
+	}
+	if len(checks) == 0 {
+		out["note"] = "not sampled: no assumed postcondition has an executable reading"
+		return out
+	}
+	call := fn.Name() + "(" + strings.Join(args, ", ") + ")"
+	if len(rs) > 0 {
+		call = strings.Join(rs, ", ") + " := " + call
+	}
+	var b strings.Builder
+	b.WriteString("package " + fn.Pkg.Pkg.Name() + "\n\nimport (\n\t\"fmt\"\n\t\"math/rand\"\n\t\"reflect\"\n\t\"testing\"\n\t\"time\"\n")
+	var ips []string
+	for p := range g.imps {
+		ips = append(ips, p)
+	}
+	sort.Strings(ips)
+	for _, p := range ips {
+		if p == "fmt" || p == "reflect" || p == "testing" || p == "time" || p == "math/rand" {
+			continue
+		}
+		b.WriteString(fmt.Sprintf("\t%s %q\n", g.imps[p], p))
+	}
+	b.WriteString(")\n\nvar _ = reflect.TypeOf\nvar _ = time.Now\nvar replayT0 = time.Now()\n")
+	b.WriteString(fmt.Sprintf(replayHelpers, strings.Join(fields, "")))
+	b.WriteString(`
+var replayInteresting = []byte{0, 1, 2, 3, 4, 6, 8, 11, 17, 58, 64, 69, 96, 128, 129, 135, 255}
+
+func replayGenBytes(rnd *rand.Rand, n int) []byte {
+	ln := 0
+	if n < 17*64 {
+		ln = n % 17
+	} else {
+		ln = rnd.Intn(48)
+	}
+	b := make([]byte, ln)
+	for i := range b {
+		if rnd.Intn(2) == 0 || (i == 0 && n%2 == 0) {
+			b[i] = replayInteresting[rnd.Intn(len(replayInteresting))]
+		} else {
+			b[i] = byte(rnd.Intn(256))
+		}
+	}
+	return b
+}
+
+func replayGenInt(rnd *rand.Rand) int64 {
+	switch rnd.Intn(4) {
+	case 0:
+		return int64(rnd.Intn(4))
+	case 1:
+		return int64(250 + rnd.Intn(10))
+	case 2:
+		return int64(65530 + rnd.Intn(10))
+	}
+	return rnd.Int63n(1 << 32)
+}
+
+func TestGovcConform(t *testing.T) {
+	rnd := rand.New(rand.NewSource(20251005))
+	fails, n := 0, 0
+	for n = 0; n < 20000 && fails < 3; n++ {
+		cur := &replayEnv{}
+		pre := cur
+		_ = pre
+`)
+	for _, gs := range gens {
+		b.WriteString("\t\t" + gs + "\n")
+	}
+	b.WriteString("\t\tfunc() {\n\t\t\tdefer func() {\n\t\t\t\tif p := recover(); p != nil {\n\t\t\t\t\tfmt.Printf(\"GOVC-CONFORM fail label=panic input=%#v panic=%v\\n\", *cur, p)\n\t\t\t\t\tfails++\n\t\t\t\t}\n\t\t\t}()\n")
+	b.WriteString("\t\t\t" + call + "\n")
+	for _, r := range rs {
+		b.WriteString("\t\t\t_ = " + r + "\n")
+	}
+	for _, ch := range checks {
+		b.WriteString(ch + "\n")
+	}
+	b.WriteString("\t\t}()\n\t}\n\tfmt.Printf(\"GOVC-CONFORM done samples=%d fails=%d\\n\", n, fails)\n}\n")
+	test := b.String()
+	tmp, err := os.MkdirTemp("", "govc-conform")
+	if err != nil {
+		out["note"] = err.Error()
+		return out
+	}
+	defer os.RemoveAll(tmp)
+	repo := repoDir()
+	rel := strings.TrimPrefix(strings.TrimPrefix(fn.Pkg.Pkg.Path(), w.module), "/")
+	tf := filepath.Join(tmp, "zz_govc_conform_test.go")
+	os.WriteFile(tf, []byte(test), 0o644)
+	ov, _ := json.Marshal(map[string]interface{}{"Replace": map[string]string{filepath.Join(repo, rel, "zz_govc_conform_test.go"): tf}})
+	ovf := filepath.Join(tmp, "ov.json")
+	os.WriteFile(ovf, ov, 0o644)
+	cmd := exec.Command("go", "test", "-tags", "verif", "-overlay", ovf, "-vet=off", "-count=1", "-v", "-timeout", "90s", "-run", "^TestGovcConform$", "./"+rel)
+	cmd.Dir = repo
+	cmd.Env = append(cleanEnv(), "GOFLAGS=-mod=mod", "GOPROXY=off")
+	lg, _ := cmd.CombinedOutput()
+	ls := string(lg)
+	out["clauses_sampled"] = labels
+	out["clauses_without_executable_reading"] = skipped
+	m := regexp.MustCompile(`GOVC-CONFORM done samples=(\d+) fails=(\d+)`).FindStringSubmatch(ls)
+	if m == nil {
+		out["note"] = "sampler did not run to completion: " + trunc(ls, 1500)
+		return out
+	}
+	out["sampled"] = true
+	out["samples"], _ = strconv.Atoi(m[1])
+	nf, _ := strconv.Atoi(m[2])
+	out["failures"] = nf
+	if nf > 0 {
+		var fl []string
+		for _, l := range strings.Split(ls, "\n") {
+			if strings.HasPrefix(l, "GOVC-CONFORM fail") {
+				fl = append(fl, trunc(l, 600))
+			}
+		}
+		out["failing_inputs"] = fl
+		out["go_test"] = test
+	}
+	return out
+}
